@@ -523,8 +523,18 @@ def rule_loop_coverage(ctx, cfg='prod-all', fns=LOOP_FNS, follow_prefix=None):
             yield Ob('RF-P', '%s#iterates:%s' % (fn, name), verdict, 'the vector is consumed completely by the iterator chain that folds it', b.span,
                      fact={'how': why, 'vector_len': tfmt(ln)}, expected='no truncating adaptor; zip partner at least as long')
         if seen == 0:
-            yield Ob('RF-P', '%s#no-loop' % fn, None, 'no index loop or iterator over a parameter vector was recognised in this function (coverage not judged)', b.span,
-                     fact=0, expected='>=1', nontrivial=False)
+            # a vector that is indexed inside a loop of this body which is not a `for i in a..b` / iterator traversal (a hand-advanced cursor, a
+            # `while` with several exits): the traversal is here, and that it covers every element is not established (fail closed).  A body
+            # without any such loop has handed the vector on (judged where the loop is): undecided.
+            loop_blocks = set()
+            for h, blocks in zf.loops:
+                loop_blocks |= set(blocks)
+            odd = sorted({(s_.need[0][1][0] or '')[4:] for s_ in zf.sites
+                          if s_.kind == 'bounds' and s_.block in loop_blocks and s_.need and (s_.need[0][1][0] or '').startswith('len:')
+                          and b.param_index((s_.need[0][1][0] or '')[4:].split('.')[0]) is not None})
+            yield Ob('RF-P', '%s#no-loop' % fn, False if odd else None,
+                     'no index loop or iterator that covers a parameter vector was recognised in this function' + (': %s is indexed in a loop of another shape, that every element is folded is not established' % ', '.join(odd) if odd else ' (coverage not judged)'),
+                     b.span, fact={'indexed_in_unrecognised_loops': odd}, expected='>=1', nontrivial=bool(odd))
 
 
 # -------------------------------------------------------------------------------- RF-M generator offsets
@@ -1294,9 +1304,14 @@ def rule_generator_pairing(ctx, cfg='prod-all', fns=None):
     fns = fns or ['bbsplus::signature::core_sign', 'bbsplus::signature::core_verify', 'bbsplus::proof::proof_init', 'bbsplus::proof::proof_verify_init',
                   'bbsplus::blind::calculate_b']
     n_msg = 0
+    per_fn = {}
     for fn in fns:
         if fn not in prog.bodies:
             raise AnchorMissing(fn)
+        if per_fn:
+            last = list(per_fn)[-1]
+            per_fn[last] = n_msg - per_fn[last]
+        per_fn[fn] = n_msg
         todo = [(fn, None)]
         # helpers that receive a slice of generator points
         for bi, t in prog.bodies[fn].calls():
@@ -1377,6 +1392,28 @@ def rule_generator_pairing(ctx, cfg='prod-all', fns=None):
                         yield Ob('RF-M', key + ':H-offset', start == (None, 1) or (start == (None, 0) and r['gpos'] is not None and r['gpos'][0] is None),
                                  'generators addressed by message position are taken from generators.values[1..]', r['where'],
                                  fact={'generator_slice_start': tfmt(start), 'index': tfmt(r['gpos'])}, expected='1')
+    if per_fn:
+        last = list(per_fn)[-1]
+        per_fn[last] = n_msg - per_fn[last]
+    # every listed function folds its message list with the H generators: a body in which no such product can be recognised is not "fine", the
+    # pairing in it is simply not established (fail closed)
+    for fn, k in per_fn.items():
+        if k >= 1:
+            yield Ob('RF-M', '%s#pairing-recognised' % fn, True, 'a product of a message scalar with an element of the generator list is recognised in this function (or in a helper it hands the H slice to)',
+                     prog.bodies[fn].span, fact={'message_products': k}, expected='>= 1', nontrivial=False)
+            continue
+        # nothing recognised: a violation when the generator list is indexed inside a loop of this very body (the products are here, in a form
+        # that establishes no pairing), undecided when the body has handed the list on
+        b = prog.bodies[fn]
+        za.summary(fn)
+        zf = za.zf(fn)
+        loop_blocks = set()
+        for h, blocks in zf.loops:
+            loop_blocks |= set(blocks)
+        here = any(s_.kind == 'bounds' and s_.block in loop_blocks for s_ in zf.sites)
+        yield Ob('RF-M', '%s#pairing-recognised' % fn, False if here else None,
+                 'no product of a message scalar with the generator of its position is recognised' + (' although lists are indexed in a loop of this function' if here else ' (handed on: not judged here)'),
+                 b.span, fact={'message_products': 0, 'indexing_in_loops_here': here}, expected='>= 1', nontrivial=here)
     yield Ob('RF-M', 'crate#message-pairings', n_msg >= 3, 'generator / message products examined', '', fact=n_msg, expected='>= 3', nontrivial=False)
 
 
